@@ -93,7 +93,9 @@ int main(int argc, char **argv) {
     /* a few large sets */
     for (int it = 0; it < (quick ? 1 : 4); it++) {
         CellVec s = {0}; int res = 5 + (int)vt_randn(10);
-        H3Index p; cellToParent(vt_random_cell(res), res - (quick ? 4 : 5 + (it == 3)), &p); add_children(&s, p, res);
+        int pr = res - (quick ? 4 : 5 + (it == 3)); if (pr < 0) pr = 0;
+        H3Index p = 0; if (cellToParent(vt_random_cell(res), pr, &p)) continue; add_children(&s, p, res);
+        if (s.n == 0) { cv_free(&s); continue; }
         for (int q = 0; q < 50; q++) s.v[vt_randn(s.n)] = 0;
         run_set(&s, "large", 0); cv_free(&s);
     }
